@@ -105,6 +105,7 @@ def check(repo: Repo) -> Result:
         elif a is not None:
             e.append(norm(a))
     res.check(bool(e) and all(x in ("self.expr", "str(self.expr)") for x in e), "Unit.copy:expr", fn.where(), "Unit.copy builds the copy from the original's expression (the object, or its printed text)", "self.expr | str(self.expr)", e, rid=r4)
+    text_columns(repo, res)
     return res
 
 
@@ -171,6 +172,113 @@ def restoration_routes(repo, res, rid):
     fj = reg.func("UnitRegistry.from_json")
     rec("lut = _correct_old_unit_registry(data, sympify=True)" in [norm(s) for s in fj.body], "json:route", fj.where(), "from_json sends every entry through the fixer with sympify=True")
     return ok_all, problems
+
+
+def text_columns(repo, res):
+    """savetxt / loadtxt: every column comes back with the unit it was written with.  savetxt writes the header units
+    and the data columns from one sequence in one order; loadtxt pairs the i-th array NumPy returns with the header
+    unit of the i-th *requested* column: with usecols the arrays come in usecols order, so the unit list must be
+    re-indexed by iterating over usecols (units[c] for c in usecols) - a selection that walks the header instead
+    (filtering by `in usecols`) keeps file order and mislabels the columns of usecols=(2, 0)."""
+    r5 = res.rule("C11-R5", "savetxt / loadtxt pair every column with its own unit, in the order the columns are written / requested", floor=4)
+    arr = repo.mod(ARR)
+    fn = arr.func("loadtxt")
+    res.fn(fn)
+    if "usecols" not in fn.params:
+        raise AnalysisError(f"{fn.where()}: loadtxt has no usecols parameter")
+    # the constructor call that wraps a column, and the zip that feeds it
+    pair = None
+    for n in ast.walk(fn.node):
+        if isinstance(n, (ast.GeneratorExp, ast.ListComp)) and isinstance(n.elt, ast.Call) and norm(n.elt.func) == "unyt_array" and len(n.generators) == 1:
+            g = n.generators[0]
+            if isinstance(g.iter, ast.Call) and norm(g.iter.func) == "zip" and len(g.iter.args) == 2 and isinstance(g.target, ast.Tuple) and len(g.target.elts) == 2:
+                tv = [norm(e) for e in g.target.elts]
+                av = [norm(a) for a in n.elt.args[:2]]
+                if av == tv:
+                    pair = (g.iter.args[0], g.iter.args[1], n)
+    if pair is None:
+        raise AnalysisError(f"{fn.where()}: `unyt_array(col, unit) for col, unit in zip(columns, units)` not found in loadtxt")
+    cols, units, node = pair
+    if not isinstance(units, ast.Name) or not isinstance(cols, ast.Name):
+        raise AnalysisError(f"{fn.where(node)}: zip operands are not plain names")
+    U = units.id
+    # the NumPy reader gets usecols, and its result is what is zipped
+    npcall = [c for c in ast.walk(fn.node) if isinstance(c, ast.Call) and norm(c.func) == "np.loadtxt"]
+    ok = len(npcall) == 1 and norm(kwarg_of(npcall[0], "usecols")) == "usecols"
+    res.check(ok, "loadtxt:usecols-forwarded", fn.where(), "np.loadtxt receives the caller's usecols", rid=r5)
+    # re-bindings of the unit list that depend on usecols
+    from engine.sem import canon_node
+
+    sel = []
+    for st in walk_no_nested(fn.node):
+        if isinstance(st, ast.Assign) and len(st.targets) == 1 and norm(st.targets[0]) == U and "usecols" in {x.id for x in ast.walk(st.value) if isinstance(x, ast.Name)} | _names_through_locals(fn, st.value):
+            sel.append(st)
+    if not sel:
+        res.bad("loadtxt:unit-selection", fn.where(), "with usecols the arrays are a subset of the file's columns but the unit list is never re-indexed: columns get the units of the first len(usecols) header entries", f"{U} = [{U}[c] for c in usecols]", "no re-binding of the unit list that depends on usecols", rid=r5)
+    for st in sel:
+        v = st.value
+        if isinstance(v, ast.Call) and norm(v.func) in ("list", "tuple") and len(v.args) == 1:
+            v = v.args[0]
+        if not (isinstance(v, (ast.ListComp, ast.GeneratorExp)) and len(v.generators) == 1):
+            raise AnalysisError(f"{fn.where(st)}: the selection of column units is not a single comprehension: {norm(st)[:80]}")
+        g = v.generators[0]
+        iter_names = {x.id for x in ast.walk(g.iter) if isinstance(x, ast.Name)} | _names_through_locals(fn, g.iter)
+        walks_request = "usecols" in iter_names and U not in iter_names
+        elt_ok = isinstance(v.elt, ast.Subscript) and norm(v.elt.value) == U and isinstance(g.target, ast.Name) and norm(v.elt.slice) == g.target.id and not g.ifs
+        if walks_request and elt_ok:
+            res.ok("loadtxt:unit-selection", r5)
+        elif U in iter_names:
+            res.bad("loadtxt:unit-selection", fn.where(st), "the units of the requested columns are selected by walking the header (file order) and filtering by membership in usecols: NumPy returns the arrays in usecols order, so usecols=(2, 0) gets its two units swapped and a repeated column loses one", f"[{U}[c] for c in usecols]", norm(st)[:100], rid=r5)
+        else:
+            raise AnalysisError(f"{fn.where(st)}: unit selection not understood: {norm(st)[:80]}")
+    # savetxt: header units and data columns from the same sequence
+    sv = arr.func("savetxt")
+    res.fn(sv)
+    a = sv.params[1]
+    loops = [n for n in sv.body if isinstance(n, ast.For) and norm(n.iter) == a]
+    comps = [n for n in sv.body if isinstance(n, ast.Assign) and len(n.targets) == 1 and isinstance(n.targets[0], ast.Name) and isinstance(n.value, ast.ListComp) and len(n.value.generators) == 1 and norm(n.value.generators[0].iter) == a]
+    units_list = None
+    if len(loops) == 1 and not comps:
+        apps = [c for c in ast.walk(loops[0]) if isinstance(c, ast.Call) and isinstance(c.func, ast.Attribute) and c.func.attr == "append"]
+        units_list = {norm(c.func.value) for c in apps}
+        ok = len(units_list) == 1 and all(len(c.args) == 1 for c in apps)
+        # exactly one append per iteration: every arm of the loop body appends once
+        from engine.flow import enum_paths
+
+        for p in enum_paths(loops[0].body):
+            n_app = sum(1 for ev in p if ev[0] == "stmt" and isinstance(ev[1], ast.Expr) and isinstance(ev[1].value, ast.Call) and isinstance(ev[1].value.func, ast.Attribute) and ev[1].value.func.attr == "append")
+            ok &= n_app == 1
+    elif len(comps) == 1 and not loops:
+        # a comprehension over the arrays yields one element per array by construction (no filter)
+        ok = not comps[0].value.generators[0].ifs
+        units_list = {comps[0].targets[0].id}
+    else:
+        raise AnalysisError(f"{sv.where()}: how savetxt collects the unit texts is not understood (neither one loop nor one comprehension over {a})")
+    res.check(ok, "savetxt:one-unit-per-array", sv.where(), "savetxt collects exactly one unit text per array, in the order of the arrays", rid=r5)
+    npsv = [c for c in ast.walk(sv.node) if isinstance(c, ast.Call) and norm(c.func) == "np.savetxt"]
+    ok = len(npsv) == 1 and len(npsv[0].args) >= 2 and norm(npsv[0].args[1]) in (f"np.transpose({a})", f"np.array({a}).T", f"np.asarray({a}).T")
+    res.check(ok, "savetxt:columns-in-order", sv.where(), "the data columns are the arrays in the given order", found=[norm(c.args[1]) for c in npsv if len(c.args) > 1], rid=r5)
+    if units_list and len(units_list) == 1:
+        ul = next(iter(units_list))
+        joined = [c for c in ast.walk(sv.node) if isinstance(c, ast.Call) and isinstance(c.func, ast.Attribute) and c.func.attr == "join" and len(c.args) == 1 and norm(c.args[0]) == ul]
+        res.check(len(joined) == 1, "savetxt:header-units", sv.where(), "the header's unit line is the collected unit texts, in order", rid=r5)
+
+
+def _names_through_locals(fn, node, depth=3):
+    """parameters / names reachable from the names in `node` through single local assignments"""
+    out = set()
+    frontier = {x.id for x in ast.walk(node) if isinstance(x, ast.Name)}
+    for _ in range(depth):
+        nxt = set()
+        for st in walk_no_nested(fn.node):
+            if isinstance(st, ast.Assign) and len(st.targets) == 1 and isinstance(st.targets[0], ast.Name) and st.targets[0].id in frontier:
+                nxt |= {x.id for x in ast.walk(st.value) if isinstance(x, ast.Name)}
+        nxt -= out | frontier
+        out |= frontier
+        if not nxt:
+            break
+        frontier = nxt
+    return out | frontier
 
 
 def layout(repo, res):
@@ -244,4 +352,7 @@ MUTANTS = [
     Mutant("deepcopy-drops-unit-system", REG, "UnitRegistry.__deepcopy__", "add_default_symbols=False, lut=lut, unit_system=self.unit_system", "add_default_symbols=False, lut=lut", ("C11-R3",)),
     Mutant("hdf5-defaults-win", ARR, "unyt_array.from_hdf5", "        unit_lut = default_unit_symbol_lut.copy()\n        unit_lut_load = pickle.loads(dataset.attrs[\"unit_registry\"].tobytes())\n        unit_lut.update(unit_lut_load)", "        unit_lut = pickle.loads(dataset.attrs[\"unit_registry\"].tobytes())\n        unit_lut.update(default_unit_symbol_lut)", ("C11-R3",)),
     Mutant("printer-unreadable", UO, "Unit.__str__", '            return "°C"', '            return "℃"', ("C11-R4",)),
+    Mutant("loadtxt-units-in-file-order", ARR, "loadtxt", "units = [units[col] for col in usecols]", "units = [unit for col, unit in enumerate(units) if col in usecols]", ("C11-R5",)),
+    Mutant("loadtxt-units-atleast1d", ARR, "loadtxt", "units = [units[col] for col in usecols]", "units = [units[col] for col in np.atleast_1d(usecols)]", (), benign=True),
+    Mutant("savetxt-skips-bare-arrays", ARR, "savetxt", "        else:\n            units.append(\"dimensionless\")\n", "", ("C11-R5",)),
 ]
